@@ -210,7 +210,8 @@ func runC05(t *Trace, r *Rng, tier string, _ []string) {
 
 		ref := layouts[0]
 		for qi := 0; qi < nReq; qi++ {
-			q, tok := genQuery(r, 3, ids, kinds)
+			q, ftok := genQuery(r, 3, ids, kinds)
+			tok, _ := resolveFuzzy(ftok, true)
 			withScores := r.Chance(60)
 			mkReq := func() *bleve.SearchRequest {
 				return nil
